@@ -116,3 +116,19 @@ func TestC06xSrc(t *testing.T) {
 	b2 := xrt.Buffers{k: make([]byte, 64), {Group: 0, Binding: 1}: make([]byte, 64)}
 	fmt.Println("spv:", spv.Exec(mod, b2, xrt.Opts{EntryPoint: "main"}), b2[k])
 }
+
+func TestC06xProbeDir(t *testing.T) {
+	d := os.Getenv("C06X_DIR")
+	if d == "" {
+		t.Skip()
+	}
+	es, _ := os.ReadDir(d)
+	for _, e := range es {
+		if !strings.HasSuffix(e.Name(), ".wgsl") {
+			continue
+		}
+		b, _ := os.ReadFile(d + "/" + e.Name())
+		ok, msg, pn := compiles(string(b))
+		fmt.Printf("%-16s accepted=%v panic=%v %s\n", e.Name(), ok, pn, trunc(msg, 120))
+	}
+}
